@@ -310,6 +310,18 @@ pub fn run(cfg: &Cfg, out: &mut Out) {
         }
         out.line("c01.miri_use", "5", &acc.to_string(), "-", "-");
         }
+        if want("strslice") {
+            let s = "aé锈🧠-x";
+            let mut acc = 0usize;
+            for i in [0usize, 1, 3, 6, 10, 11, 12, 99, usize::MAX] {
+                acc += kstr::str_from(s, i).len() + kstr::str_up_to(s, i).len() + kstr::str_range(s, 1, i).len();
+                let (a, b) = kstr::split_at(s, i);
+                acc += a.len() * 3 + b.len();
+                acc += kstr::get_from(s, i).map_or(7, |x| x.len()) + kstr::get_up_to(s, i).map_or(7, |x| x.len()) + kstr::get_range(s, 1, i).map_or(7, |x| x.chars().count());
+                acc += kstr::is_char_boundary(s, i) as usize;
+            }
+            out.line("c01.miri_use", "6", &acc.to_string(), "-", "-");
+        }
         if want("misc") {
         let _ = konst::chr::encode_utf8('🧠').as_str().len();
         let _ = konst::chr::from_u32(0xD7FF);
